@@ -81,9 +81,13 @@ namespace c14
         LD opt, lo, hi;
         int best;
     };
-    inline Envelope envelope(const Canon &c, LD delta = 2e-6L)
+    // The targets within `delta` of the stated one: position moved by 0 / +-delta * rho along x and y, heading by
+    // 0 / +-delta (27 targets).  delta = 2e-6 is the resolution the library documents for itself (DUBINS_EPS = 1e-6:
+    // angles within 5e-7 of a full turn are snapped to 0, poses closer than 1e-6 are the same pose).
+    inline Envelope envelope(const Pose &A, const Pose &B, double rho, LD delta = 2e-6L)
     {
         Envelope e;
+        Canon c = canon(A, B, rho);
         Six s = sixWords(c.d, c.alpha, c.beta);
         e.opt = e.lo = e.hi = s.opt;
         e.best = s.best;
@@ -92,10 +96,9 @@ namespace c14
             int i = k % 3 - 1, j = (k / 3) % 3 - 1, l = k / 9 - 1;
             if (i == 0 && j == 0 && l == 0)
                 continue;
-            LD d = c.d + i * delta;
-            if (d < 0)
-                d = 0;
-            LD v = sixWords(d, m2(c.alpha + j * delta), m2(c.beta + l * delta)).opt;
+            Pose P{(double)(B.x + i * delta * rho), (double)(B.y + j * delta * rho), (double)(B.th + l * delta)};
+            Canon cp = canon(A, P, rho);
+            LD v = sixWords(cp.d, cp.alpha, cp.beta).opt;
             e.lo = std::min(e.lo, v);
             e.hi = std::max(e.hi, v);
         }
@@ -179,10 +182,10 @@ namespace c14
                     pre.push_back(sc.U(sp->distance(a.s, s.s)));
                     // the six-word optimum (envelope over the library's input resolution) for the prefix's end point
                     Pose P = s.get();
-                    Envelope ek = envelope(canon(A, P, rho));
+                    Envelope ek = envelope(A, P, rho);
                     if (sym)
                     {
-                        Envelope er = envelope(canon(P, A, rho));
+                        Envelope er = envelope(P, A, rho);
                         ek.lo = std::min(ek.lo, er.lo);
                         ek.hi = std::min(ek.hi, er.hi);
                     }
@@ -195,7 +198,7 @@ namespace c14
 
             // --- the harness's own view: branch case and the six-word optimum
             Branch bf = dubinsBranch(cf, tb), bb;
-            Envelope ef = envelope(cf), eb = ef;
+            Envelope ef = envelope(A, B, rho), eb = ef;
             std::string br = bf.id, pw = bf.word >= 0 ? DWORD_NAME[bf.word] : "?";
             LD margin = bf.margin;
             LD opt = ef.opt, lo = ef.lo, hi = ef.hi;
@@ -203,7 +206,7 @@ namespace c14
             if (sym)
             {
                 bb = dubinsBranch(cb, tb);
-                eb = envelope(cb);
+                eb = envelope(B, A, rho);
                 bool prv = eb.opt < ef.opt;
                 const Branch &ch = prv ? bb : bf;
                 trail = {"sym", std::string("rev=") + (prv ? "T" : "F"), ch.word >= 0 ? DWORD_NAME[ch.word] : "?"};
@@ -215,7 +218,14 @@ namespace c14
                 lo = std::min(ef.lo, eb.lo);
                 hi = std::min(ef.hi, eb.hi);
             }
-            bool interior = margin > interiorMargin && meta.bnd.empty();
+            bool interior = margin > (trail.size() == 1 ? 1e-7 : interiorMargin) && meta.bnd.empty();
+            {
+                const Branch &ch = (sym && eb.opt < ef.opt) ? bb : bf;
+                e["kind"] = ch.defined ? ch.kind : "undefined";
+                e["cls"] = ch.cls;
+                std::vector<bool> outs = ch.outs;
+                e["outs"] = outs;
+            }
             e["br"] = br;
             e["inter"] = interior;
             e["pw"] = pw;
@@ -241,6 +251,7 @@ namespace c14
             e["endYaw"] = Scale::A(endYaw);
             e["cusp"] = cv.cusps;
             e["wcusp"] = 0;
+            e["tiny"] = 0;
             e["fwd"] = cv.fwd;
             e["back"] = cv.back;
             e["shape"] = cv.shape;
@@ -420,6 +431,13 @@ namespace c14
             e["endYaw"] = Scale::A(endYaw);
             e["cusp"] = cv.cusps;
             e["wcusp"] = wcusp;
+            {
+                int tiny = 0;  // non-zero segments too short for a change of direction to show in the samples
+                for (int k = 0; k < nseg; ++k)
+                    if (path.length_[k] != 0 && fabs(path.length_[k]) < 1e-6)
+                        ++tiny;
+                e["tiny"] = tiny;
+            }
             // shortest non-zero segment in sampling steps (a cusp between two segments shorter than a step can hide)
             e["fwd"] = cv.fwd;
             e["back"] = cv.back;
